@@ -1,1 +1,142 @@
-(* C15 stub: to be written *)
+(* C15 -- Imaging probe: voxel shape, off-resonance / T2' modulation, weights.
+   Only statements, each closed by [exact], followed by Print Assumptions.
+   Model: Model/Imaging.v (utils.imaging, Imaging._acquire, System); proofs: Proofs/ImagingProofs.v.
+   PARTIAL in 2-3 dimensions: the 'box' factor is proved to be the voxel average per axis and the
+   ITERATED average in 2-D; the product over the wavenumber columns is the definition of the separable
+   average -- Fubini (iterated = area/volume average) is not proved. *)
+From Coq Require Import Reals List Bool.
+From Coquelicot Require Import Coquelicot.
+From EPG Require Import Scalar CInst Imaging ImagingProofs.
+Import ListNotations.
+Local Open Scope R_scope.
+
+(* (1) box_is_average -- the form factor of the source, sinc_np (k * size / 2 / pi) with numpy's sinc,
+   is the average of the plane wave over the voxel; every k (k = 0 included), every size <> 0 *)
+Theorem C15_box_is_average_cos (k x D : R) : D <> 0 ->
+  RInt (fun u => cos (k * u)) (x - D / 2) (x + D / 2) / D = cos (k * x) * sinc_np (k * D / 2 / PI).
+Proof. exact (box_is_average_cos k x D). Qed.
+Print Assumptions C15_box_is_average_cos.
+
+Theorem C15_box_is_average_sin (k x D : R) : D <> 0 ->
+  RInt (fun u => sin (k * u)) (x - D / 2) (x + D / 2) / D = sin (k * x) * sinc_np (k * D / 2 / PI).
+Proof. exact (box_is_average_sin k x D). Qed.
+Print Assumptions C15_box_is_average_sin.
+
+Theorem C15_box_is_average_k0 (x D : R) : D <> 0 ->
+  RInt (fun u => cos (0 * u)) (x - D / 2) (x + D / 2) / D = 1 /\ sinc_np (0 * D / 2 / PI) = 1.
+Proof. exact (box_is_average_k0 x D). Qed.
+Print Assumptions C15_box_is_average_k0.
+
+Theorem C15_box_is_average_cis (k x D : R) : D <> 0 ->
+  is_RInt (V := prod_NormedModule R_AbsRing R_NormedModule R_NormedModule)
+       (fun u => cis (k * u)) (x - D / 2) (x + D / 2)
+       (Cmult (RtoC D) (Cmult (RtoC (sinc_np (k * D / 2 / PI))) (cis (k * x)))).
+Proof. exact (box_is_average_cis k x D). Qed.
+Print Assumptions C15_box_is_average_cis.
+
+(* (2) the whole probe in one dimension (any modulation, phase, weight; no masking): the 'box' value at x
+   times D is the integral over the voxel of the 'point' values *)
+Theorem C15_box_probe_is_average_1d (c : icfg) (l : list pstate) (x D : R) :
+  D <> 0 -> List.Forall one_column l ->
+  CInt (fun u => img_all (as_point c) [u] l) (x - D / 2) (x + D / 2)
+       (Cmult (RtoC D) (img_all (as_box c [D]) [x] l)).
+Proof. exact (box_is_average_1d c l x D). Qed.
+Print Assumptions C15_box_probe_is_average_1d.
+
+(* (2') two dimensions, iterated average; Fubini not proved: PARTIAL *)
+Theorem C15_box_probe_is_iterated_average_2d_partial (c : icfg) (l : list pstate) (x1 x2 D1 D2 : R) :
+  D1 <> 0 -> D2 <> 0 -> List.Forall two_columns l ->
+  exists inner : R -> C,
+    (forall u2, CInt (fun u1 => img_all (as_point c) [u1; u2] l) (x1 - D1 / 2) (x1 + D1 / 2)
+                     (Cmult (RtoC D1) (inner u2))) /\
+    CInt inner (x2 - D2 / 2) (x2 + D2 / 2) (Cmult (RtoC D2) (img_all (as_box c [D1; D2]) [x1; x2] l)).
+Proof. exact (box_is_iterated_average_2d c l x1 x2 D1 D2). Qed.
+Print Assumptions C15_box_probe_is_iterated_average_2d_partial.
+
+(* (3) masks: the value with the source's masks is within tol * (sum of |w F_j| over the dropped states)
+   of the unmasked value (decaying modulation, 0 <= tol) *)
+Theorem C15_mask_error_bound (c : icfg) (x : list R) (keeps : list bool) (l : list pstate) :
+  decaying c -> 0 <= tol c -> Forall2 (mask_ok c) keeps l ->
+  Cmod (Cminus (img_all c x l) (img c x l)) <= tol c * dropped_weight c keeps l.
+Proof. exact (mask_error_bound_tol c x keeps l). Qed.
+Print Assumptions C15_mask_error_bound.
+
+Theorem C15_mask_error_bound_general (c : icfg) (x : list R) (eps : R) (keeps : list bool) (l : list pstate) :
+  Forall2 (fun (b : bool) s => b = false -> Rabs (form c s) * modre c s <= eps) keeps l ->
+  Cmod (Cminus (img_all c x l) (img_list keeps c x l)) <= eps * dropped_weight c keeps l.
+Proof. exact (mask_error_bound c x eps keeps l). Qed.
+Print Assumptions C15_mask_error_bound_general.
+
+(* the per-state mask facts proved by the Interval tie determine the model's own decision *)
+Theorem C15_img_of_masks (c : icfg) (x : list R) (keeps : list bool) (l : list pstate) :
+  Forall2 (mask_ok c) keeps l -> img_list keeps c x l = img c x l.
+Proof. exact (img_of_masks c x keeps l). Qed.
+Print Assumptions C15_img_of_masks.
+
+(* (4) point voxel = the isochromat at x (plain synthesis; with C01/C04 this is the Bloch magnetisation) *)
+Theorem C15_point_is_isochromat (c : icfg) (x : list R) (l : list pstate) : plain c ->
+  img c x l = sumC (map (fun s => Cmult (sF s) (cis (kdot (sk s) x))) l).
+Proof. exact (point_is_isochromat c x l). Qed.
+Print Assumptions C15_point_is_isochromat.
+
+(* (5) imaginary modulation i f = off-resonance f over the accumulated times *)
+Theorem C15_modulation_imag_is_offres (c : icfg) (f : R) (x : list R) (l : list pstate) : offres_cfg c f ->
+  img c x l = sumC (map (fun s => Cmult (sF s) (cis (kdot (sk s) x + st s * (2 * PI * f)))) l).
+Proof. exact (modulation_imag_is_offres c f x l). Qed.
+Print Assumptions C15_modulation_imag_is_offres.
+
+Theorem C15_modulation_imag_is_time_character (c c0 : icfg) (f : R) (x : list R) (l : list pstate) :
+  offres_cfg c f -> plain c0 -> List.Forall (fun s => length (sk s) = length x) l ->
+  img c x l = img c0 (x ++ [2 * PI * f]) (map lift_time l).
+Proof. exact (modulation_imag_is_time_character c c0 f x l). Qed.
+Print Assumptions C15_modulation_imag_is_time_character.
+
+Theorem C15_time_shift_is_precession (c : icfg) (f : R) (x : list R) (tau : R) (l : list pstate) :
+  offres_cfg c f ->
+  img c x (map (shift_time tau) l) = Cmult (cis (2 * PI * f * tau)) (img c x l).
+Proof. exact (time_shift_is_precession c f x tau l). Qed.
+Print Assumptions C15_time_shift_is_precession.
+
+(* (6) real modulation r: each state multiplied by exp(r |t_j|), nothing else *)
+Theorem C15_modulation_real (c : icfg) (r : R) (x : list R) (keeps : list bool) (l : list pstate) :
+  timed c = true -> modul c = Some (r, None) ->
+  img_list keeps c x l = img_list keeps (no_modul c) x (map (damp r) l).
+Proof. exact (modulation_real c r x keeps l). Qed.
+Print Assumptions C15_modulation_real.
+
+(* (7) weights multiply the un-reduced output; reduce only sums *)
+Theorem C15_weights_scale_output (c : icfg) (x : list R) (keeps : list bool) (l : list pstate) :
+  img_list keeps c x l = Cmult (wfac c) (img_list keeps (no_weight c) x l).
+Proof. exact (weights_scale_output c x keeps l). Qed.
+Print Assumptions C15_weights_scale_output.
+
+Theorem C15_reduce_only_sums (n : nat) (m : list (list C)) : List.Forall (fun r => length r = n) m ->
+  reduce_all m = sumC (reduce_ax1 m) /\ reduce_all m = sumC (reduce_ax0 n m).
+Proof. exact (reduce_only_sums n m). Qed.
+Print Assumptions C15_reduce_only_sums.
+
+(* (8) System() vs probe arguments *)
+Theorem C15_args_equal_system (pops : bool) (base : icfg) (m : option (R * option R)) (w : option C)
+  (x : list R) (l : list pstate) :
+  fst (acquire pops base (mkOpts m w) (mkSys None None) x l) =
+  fst (acquire pops base (mkOpts None None) (mkSys m w) x l).
+Proof. exact (args_equal_system pops base m w x l). Qed.
+Print Assumptions C15_args_equal_system.
+
+(* (9) repeated use of one probe instance: stable when options are read, refuted when they are popped
+   (finding switch [pops]: the behaviour of probe.py 203/206 on the pinned tree) *)
+Theorem C15_repeated_use_stable (base : icfg) (o : popts) (sys : psystem) (x : list R) (l : list pstate) :
+  let '(v1, v2) := acquire2 false base o sys x l in v1 = v2.
+Proof. exact (repeated_use_stable base o sys x l). Qed.
+Print Assumptions C15_repeated_use_stable.
+
+Theorem C15_repeated_use_refuted :
+  exists base o sys x l, let '(v1, v2) := acquire2 true base o sys x l in v1 <> v2.
+Proof. exact repeated_use_refuted. Qed.
+Print Assumptions C15_repeated_use_refuted.
+
+(* non-vacuity: the hypotheses of (2) hold for a concrete state list *)
+Example C15_nonvacuous :
+  CInt (fun u => img_all (as_point witness_base) [u] [mkPS (RtoC 1) [2] 0]) (1 - 3 / 2) (1 + 3 / 2)
+       (Cmult (RtoC 3) (img_all (as_box witness_base [3]) [1] [mkPS (RtoC 1) [2] 0])).
+Proof. exact box_nonvacuous. Qed.
